@@ -330,11 +330,34 @@ VARIANTS = {
     'fq-nolang': dict(FilterQuery='Id = 1'),
     'badlang': dict(FilterQueryLanguage='WQL', FilterQuery='Id = 1'),
 }
+# filter parameters of the association / reference Opens: the session must deliver what the traditional
+# operation delivers WITH THE SAME FILTERS (roles of TST_AB: Src = the TST_B end, Dst = the TST_A end)
+FILTERS = {
+    'f-role-own': dict(Role='Src'), 'f-role-other': dict(Role='Dst'), 'f-role-case': dict(Role='SRC'),
+    'f-rrole': dict(ResultRole='Dst'), 'f-rrole-other': dict(ResultRole='Src'),
+    'f-ac': dict(AssocClass='TST_AB'), 'f-ac-none': dict(AssocClass='TST_A'),
+    'f-rc': dict(ResultClass='TST_A'), 'f-rc-none': dict(ResultClass='TST_B'),
+    'f-rc-ref': dict(ResultClass='TST_AB'),
+}
+VARIANTS.update(FILTERS)
 VARIANT_MOCS = [None, 1]
 
 
 def variants_of(op):
-    return [v for v in VARIANTS if op != 'OpenQueryInstances' or not v.startswith(('fq', 'bad'))]
+    out = []
+    for v in VARIANTS:
+        if v.startswith('f-'):
+            if 'Associator' in op:
+                ok = v != 'f-rc-ref'
+            elif 'Reference' in op:
+                ok = v.startswith('f-role') or v in ('f-rc-ref', 'f-rc-none')
+            else:
+                ok = False
+        else:
+            ok = op != 'OpenQueryInstances' or not v.startswith(('fq', 'bad'))
+        if ok:
+            out.append(v)
+    return out
 
 
 def real_open(conn, op, moc, variant=None):
@@ -346,7 +369,12 @@ def real_open(conn, op, moc, variant=None):
     return call(getattr(conn, op), bpath(), MaxObjectCount=moc, **kw)
 
 
-def traditional(conn, op):
+def traditional(conn, op, variant=None):
+    kw = dict(FILTERS[variant]) if variant in FILTERS else {}
+    if kw:
+        trad = {'OpenAssociatorInstances': conn.Associators, 'OpenAssociatorInstancePaths': conn.AssociatorNames,
+                'OpenReferenceInstances': conn.References, 'OpenReferenceInstancePaths': conn.ReferenceNames}[op]
+        return call(trad, bpath(), **kw)
     if op == 'OpenEnumerateInstances':
         return call(conn.EnumerateInstances, 'TST_A', namespace=NS)
     if op == 'OpenEnumerateInstancePaths':
@@ -462,7 +490,7 @@ def _step(w, ev):
         obs = dict(op=op, moc=mclass(moc, None))
         if res[0] == 'local':
             return StepResult('open:rejected-locally', False, [], obs)
-        ref = traditional(pickle.loads(pre), op)
+        ref = traditional(pickle.loads(pre), op, variant)
         if ref[0] not in ('ok', 'cim'):
             raise HarnessError('traditional %s on the clone: %r' % (op, ref))
         if ref[0] == 'ok':
@@ -473,7 +501,7 @@ def _step(w, ev):
             problems.append(Problem(dict(sig, what='raised:' + res[1]), 'result or CIMError', describe(res)))
             return StepResult('open:raised', True, problems, obs)
         if res[0] == 'cim':
-            if variant is not None:
+            if variant is not None and variant not in FILTERS:
                 return StepResult('open:refused-parameter', True, [], obs)
             if ref[0] == 'ok':
                 problems.append(Problem(dict(sig, what='refused:' + codename(res[1])),
